@@ -44,6 +44,17 @@ inductive PErr where
 
 abbrev P := Except PErr
 
+/-- `[f(x) for x in l]` where `f` may raise: the first error aborts -/
+def mapMP {α β} (f : α → P β) : List α → P (List β)
+  | [] => .ok []
+  | a :: as =>
+    match f a with
+    | .error e => .error e
+    | .ok b =>
+      match mapMP f as with
+      | .error e => .error e
+      | .ok bs => .ok (b :: bs)
+
 def liftR {α} : R α → P α
   | .ok a => .ok a
   | .error e => .error (.doc e)
@@ -322,9 +333,9 @@ def convertGroup (g : GGroup) : P GeneF := do
         | c :: _ => do let ch ← addChild c none; pure (c, [ch])
         | [] => throw .indexError)                              -- `cds_features[0]` on an empty list
   let more ← (match g.txs, g.cdss with
-    | t :: _, _ :: _ => g.cdss.mapM fun c => addChild t (some c)
-    | _ :: _, [] => g.txs.mapM fun t => addChild t none
-    | [], _ => g.cdss.mapM fun c => addChild c none)
+    | t :: _, _ :: _ => mapMP (fun c => addChild t (some c)) g.cdss
+    | _ :: _, [] => mapMP (fun t => addChild t none) g.txs
+    | [], _ => mapMP (fun c => addChild c none) g.cdss)
   let children := first ++ more
   if children.isEmpty then
     pure ⟨gene, [⟨{ gene with type := tyNcRNA }, none⟩]⟩      -- infer_child
@@ -476,7 +487,7 @@ def firstOf (k : Str) (q : QDict) : P (Option Str) :=
   | some (v :: _) => pure (some v)
 
 def toGeneModel (rule : ParserRule) (gf : GeneF) : P PGene := do
-  let all ← gf.children.mapM (txModel rule)
+  let all ← mapMP (txModel rule) gf.children
   let txs := dedup all []
   let ty ← (match geneBiotype (all.map (·.txType)) with
     | some t => pure t
@@ -493,9 +504,9 @@ def sortGenesByStart (gs : List GeneF) : List GeneF := gs.mergeSort fun a b => d
 /-- `parser.parse()` restricted to the gene models of one record -/
 def parseModelWith (rule : ParserRule) (m : Mode) (rs : List Rec) : P (List PGene) := do
   let ex ← extract m rs
-  let genes ← ex.groups.mapM convertGroup
+  let genes ← mapMP convertGroup ex.groups
   if genes.isEmpty && ex.remaining == 0 then throw (.doc .Export)      -- EmptyGenBankError
-  else (sortGenesByStart genes).mapM (toGeneModel rule)
+  else mapMP (toGeneModel rule) (sortGenesByStart genes)
 
 /-- the parser as it is in /repo today -/
 def parseModel (m : Mode) (rs : List Rec) : P (List PGene) := parseModelWith currentParserRule m rs
